@@ -453,7 +453,8 @@ open MakeGatewayConc
 theorem C05_reservation_pinned :
     codeCfg = good ∧
     Generated.reserveIdSteps = [(0, "if spec.id is None"), (1, "self._allocate_id(spec)"), (0, "else"),
-      (1, "if self._id_taken(spec.id)"), (2, "raise ValueError"), (0, "self._reserved_ids.add(spec.id)")] ∧
+      (1, "if not spec.id"), (2, "raise ValueError"), (1, "else"),
+      (2, "if self._id_taken(spec.id)"), (3, "raise ValueError"), (0, "self._reserved_ids.add(spec.id)")] ∧
     Generated.registerSteps = ["self._gateways.append(gateway)", "self._reserved_ids.discard(gateway.id)"] := by
   decide
 
